@@ -22,7 +22,7 @@ from ..util import REPO_DIR, VERIF_DIR, digest, short, stream
 
 ID = "C11"
 PRELOAD = ["sqllineage.runner", "sim.props.c11"]
-BUDGET_S = {"quick": 170.0, "thorough": 2400.0}
+BUDGET_S = {"quick": 300.0, "thorough": 2400.0}
 
 DESCRIPTION = {
     "rule": (
@@ -43,7 +43,7 @@ DESCRIPTION = {
         "exceptions are compared by type name",
         "metadata is served by DummyMetaDataProvider built from the dict the tests use (SQLAlchemy-backed providers of the test-suite are not replayed)",
     ],
-    "required_probes": {"quick": ["multi_element_result", "accessor_permuted", "accessor_repeated", "warm_process", "warm_same_text_other_dialect"],
+    "required_probes": {"quick": ["multi_element_result", "accessor_permuted", "accessor_repeated", "warm_process", "warm_same_text_other_dialect", "warm_same_text_other_project_config"],
                         "thorough": ["multi_element_result", "accessor_permuted", "accessor_repeated", "warm_process", "warm_same_text_other_dialect"]},
 }
 
@@ -55,7 +55,7 @@ def norm_sql(s: str) -> str:
 
 
 def input_id(inp: dict) -> str:
-    return short([norm_sql(inp["sql"]), inp["dialect"], inp.get("meta"), inp.get("cfg") or {}, bool(inp.get("silent"))], 20)
+    return short([norm_sql(inp["sql"]), inp["dialect"], inp.get("meta"), inp.get("cfg") or {}, bool(inp.get("silent"))] + ([inp["project"]] if inp.get("project") else []), 20)
 
 
 # ---------------------------------------------------------------------------
@@ -74,6 +74,16 @@ def observe_one(spec: dict) -> dict:
     kwargs = {"dialect": inp["dialect"], "silent_mode": bool(inp.get("silent"))}
     if inp.get("meta") is not None:
         kwargs["metadata_provider"] = DummyMetaDataProvider({k: list(v) for k, v in inp["meta"].items()})
+    if inp.get("project"):
+        # part of the run's configuration: a project directory whose .sqlfluff gives the templated text its meaning,
+        # selected through file_path
+        import tempfile
+
+        d = os.path.join(os.environ.get("VERIF_WORK") or tempfile.gettempdir(), "c11-proj-" + short(inp["project"], 16))
+        os.makedirs(d, exist_ok=True)
+        with open(os.path.join(d, ".sqlfluff"), "w") as f:
+            f.write("[sqlfluff:templater:jinja:context]\n" + "".join(f"{k}={v}\n" for k, v in sorted(inp["project"].items())))
+        kwargs["file_path"] = os.path.join(d, "script.sql")
 
     def go():
         runner = LineageRunner(inp["sql"], **kwargs)
@@ -125,6 +135,8 @@ def judge(inp: dict, worlds: list[dict], observations: list[dict]) -> dict:
             probes["warm_process"] = 1
             if any(pre["sql"] == inp["sql"] and pre["dialect"] != inp["dialect"] for pre in w["prelude"]):
                 probes["warm_same_text_other_dialect"] = 1
+            if inp.get("project") and any(pre["sql"] == inp["sql"] and pre.get("project") != inp["project"] for pre in w["prelude"]):
+                probes["warm_same_text_other_project_config"] = 1
         if w["prog"] != worlds[0]["prog"]:
             probes["accessor_permuted"] = 1
         for a, ds in o["obs"].items():
@@ -240,6 +252,22 @@ def xdialect_inputs(seed: int, n: int) -> list[dict]:
     return out
 
 
+def project_inputs(seed: int, n: int) -> list[dict]:
+    """Templated scripts whose meaning comes from the .sqlfluff of the project directory named by file_path; the warm
+    world analyses the byte-identical text under ANOTHER project's context first."""
+    g = stream(seed, "c11-project")
+    out = []
+    for i in range(n):
+        ctxs = [{"src_tbl": f"raw{j}.orders_{i}", "tgt_tbl": f"mart{j}.daily_{i}", "col": g.choice(["amount", "qty"]) if j else "amount"} for j in range(2)]
+        sql = g.choice(["INSERT INTO {{ tgt_tbl }} SELECT id, {{ col }} AS v FROM {{ src_tbl }}",
+                        "CREATE TABLE {{ tgt_tbl }} AS SELECT * FROM {{ src_tbl }};\nINSERT INTO m.final SELECT * FROM {{ tgt_tbl }}",
+                        "INSERT INTO {{ tgt_tbl }} SELECT a.id, b.{{ col }} FROM {{ src_tbl }} a JOIN m.dim b ON a.id = b.id"])
+        a, b = (0, 1) if g.random() < 0.5 else (1, 0)
+        base = {"sql": sql, "dialect": g.choice(["ansi", "ansi", "sparksql"]), "meta": None, "cfg": {}, "silent": False}
+        out.append(dict(base, src="project", project=ctxs[a], siblings=[dict(base, src="project-pre", project=ctxs[b])]))
+    return out
+
+
 def tpcds_inputs() -> list[dict]:
     out = []
     for f in sorted(glob.glob(os.path.join(REPO_DIR, "sqllineage", "data", "tpcds", "*.sql"))):
@@ -249,7 +277,7 @@ def tpcds_inputs() -> list[dict]:
 
 def risky(g, tag: str) -> dict:
     """Shapes with several equal-rank candidates in one set."""
-    kind = g.choice(["unqualified_many", "wildcard_disjoint", "drop_rename_mix", "multi_rename", "many_tables", "many_targets", "consumption_variants", "consumption_variants", "repeated_target", "repeated_target", "anon_derived_star", "column_ring", "column_ring", "cte_shapes", "cte_shapes", "cte_shapes", "lateral_alias", "lateral_alias"])
+    kind = g.choice(["unqualified_many", "wildcard_disjoint", "drop_rename_mix", "multi_rename", "many_tables", "many_targets", "consumption_variants", "consumption_variants", "repeated_target", "repeated_target", "anon_derived_star", "column_ring", "column_ring", "cte_shapes", "cte_shapes", "cte_shapes", "lateral_alias", "lateral_alias", "lateral_alias", "lateral_alias"])
     meta = None
     dialect = g.choice(["ansi", "non-validating"])
     if kind == "unqualified_many":
@@ -414,6 +442,9 @@ def risky(g, tag: str) -> dict:
         for k in range(g.choice([3, 4, 5, 6])):
             if not aliases or g.random() < 0.2:
                 expr = g.choice(base)
+            elif k in (1, 2) and g.random() < 0.7:
+                # the cooperating core: an alias referenced together with another column, and the same alias again
+                expr = [f"{aliases[0]} + {g.choice(base)}", f"{aliases[0]} * 2"][k - 1] if g.random() < 0.5 else [f"{aliases[0]} * 2", f"{g.choice(base)} - {aliases[0]}"][k - 1]
             else:
                 parts = [g.choice(aliases)] + [g.choice(aliases + base) for _ in range(g.choice([0, 1, 1, 2]))]
                 g.shuffle(parts)
@@ -496,7 +527,8 @@ def search(pool, tier: str, seed: int, deadline: float, agg: Agg) -> None:
     tp = tpcds_inputs()
     if tier == "quick":  # a third of the (heavy) TPC-DS queries per seed
         tp = [x for i, x in enumerate(tp) if (i + seed) % 3 == 0]
-    inputs = corpus_inputs() + tp + generated_inputs(seed, {"quick": 270, "thorough": 3000}[tier]) + xdialect_inputs(seed, {"quick": 60, "thorough": 600}[tier])
+    inputs = corpus_inputs() + tp + generated_inputs(seed, {"quick": 270, "thorough": 3000}[tier]) + xdialect_inputs(seed, {"quick": 60, "thorough": 600}[tier]) \
+        + project_inputs(seed, {"quick": 12, "thorough": 120}[tier])
     seen = set()
     uniq = []
     for inp in inputs:
